@@ -17,7 +17,9 @@ use duke::visitor::MultiClassVisitor;
 use std::ops::ControlFlow;
 
 #[derive(Clone, Debug)]
-pub struct SimpleCfg { pub decline_fields: Vec<bool>, pub decline_methods: Vec<bool>, pub decline_code: Vec<bool>, pub method: MethodInterests, pub code: CodeMask }
+pub struct SimpleCfg { pub decline_fields: Vec<bool>, pub decline_methods: Vec<bool>, pub decline_code: Vec<bool>, pub method: MethodInterests, pub code: CodeMask,
+    /// what the method visitor / its Code visitor handed out for the i-th offered method answers from `interests()` where that is not `method` / `code`
+    pub method_overrides: Vec<Option<MethodInterests>>, pub code_overrides: Vec<Option<CodeMask>> }
 
 pub struct SimpleMulti { pub cfg: SimpleCfg, pub headers: Vec<(Version, ClassAccess, ObjClassName, Option<ObjClassName>, Vec<ObjClassName>)>, pub finished: Vec<SimpleProbe> }
 impl SimpleMulti { pub fn new(cfg: SimpleCfg) -> SimpleMulti { SimpleMulti { cfg, headers: vec![], finished: vec![] } } }
@@ -49,7 +51,10 @@ impl SimpleClassVisitor for SimpleProbe {
         let i = self.offered_methods.len();
         let declined = self.cfg.decline_methods.get(i).copied().unwrap_or(false);
         self.offered_methods.push(MemberHdr { access: access.into(), name: js(name.as_inner()), desc: js(descriptor.as_inner()), declined });
-        Ok(if declined { None } else { Some(HMethod { interests: self.cfg.method, code: self.cfg.code, decline_code: self.cfg.decline_code.get(i).copied().unwrap_or(false), index: i, code_visits: 0, inner: Method::new(access, name, descriptor) }) })
+        // every method visitor is made with the answers of ITS method: a visitor may answer `interests()` differently for every member
+        let interests = match self.cfg.method_overrides.get(i) { Some(Some(m)) => *m, _ => self.cfg.method };
+        let code = match self.cfg.code_overrides.get(i) { Some(Some(c)) => *c, _ => self.cfg.code };
+        Ok(if declined { None } else { Some(HMethod { interests, code, decline_code: self.cfg.decline_code.get(i).copied().unwrap_or(false), index: i, code_visits: 0, inner: Method::new(access, name, descriptor) }) })
     }
     fn finish_method(&mut self, m: Self::MethodVisitor) -> Result<()> {
         if m.code_visits > 0 { self.code_visits.push((m.index, m.code_visits, m.decline_code)); }
